@@ -372,7 +372,7 @@ PROPS = {
         ],
         "fuzz": [{"fuzz": "FuzzC01", "fuzztime": "120s", "timeout": 1800}],
         "assumptions": [
-            "generator size bounds keep legitimate work small (loops <= 6 items, nesting <= 4, lorem <= 1000 paragraphs, numbers in the lexeme vocabulary <= 10^5 except two overflow probes), so the 30 s hang bound is never a verdict on slow but finite work; a case that exceeds it is re-run alone before it is reported",
+            "generator size bounds keep legitimate work small (loops <= 6 items, nesting <= 4, lorem <= 1000 paragraphs, numbers in the lexeme vocabulary <= 10^5 except two overflow probes), so the 30 s hang bound is never a verdict on slow but finite work; a case that exceeds it is re-run alone, in a fresh process and with a bound of 180 s, before it is reported (a run in which the first bound was hit but the second was not ends inconclusive, exit 2)",
             "the helper files served by the loader form an acyclic graph; a generated template that makes a file include / extend itself is not produced on purpose (token mutations could in principle create one)",
             "functions and methods supplied in the context are total (also on nil receivers) and side-effect free; a panic inside them would be a harness bug",
         ],
